@@ -45,6 +45,7 @@ theorem C01_entry_ok_regular (o : Obj) (p : Str) (t : FTag) (q : Str) (esize : N
   cases o with
   | absent => simp [verifyObj] at h
   | notdir => simp [verifyObj] at h
+  | fault k => simp [verifyObj] at h
   | dir dv i ks => simp only [verifyObj] at h; split at h <;> simp at h
   | special dv => simp only [verifyObj] at h; split at h <;> simp at h
   | file m =>
